@@ -110,6 +110,7 @@ def _seeded(seed):
         'sample_tt': lambda s: teneva.sample_tt(n, 2, seed=s),
         'anova': lambda s: teneva.anova(_grid(), _f(_grid()), 2, 1, 1e-3, seed=s),
         'anova2': lambda s: teneva.anova(_grid(), _f(_grid()), 3, 2, 1e-3, seed=s),
+        'anova2.cap': lambda s: teneva.anova(space.grid_array([9, 9, 9])[::7], np.sin(space.grid_array([9, 9, 9])[::7] @ np.array([1.0, 0.3, 0.7])), 2, 2, 1e-3, seed=s),
         # second-order models on OTHER training sets that share (mode, index) pairs with the one above
         'anova2.sub': lambda s: teneva.anova(_grid()[::2], _f(_grid()[::2]) * 2.0 + 1.0, 2, 2, 1e-3, seed=s),
         'anova2.perm': lambda s: teneva.anova(_grid()[::-1], np.sin(_grid()[::-1] @ np.array([1.0, 2.0, 0.5])), 3, 2, 0., seed=s),
@@ -151,6 +152,12 @@ def _deterministic():
     X = teneva.ind_to_poi(grid, -1., 1., 3, 'cheb')
     return {
         'truncate': lambda: teneva.truncate(teneva.add(_Y(1), _Y(1)), 1e-8),
+        'truncate.cap': lambda: teneva.truncate(space.tt([9, 9, 9], [1, 9, 9, 1], 'gen', 0, tag=71), 1e-10, 2),
+        'truncate.cap.svd': lambda: teneva.truncate(space.tt([9, 9, 9], [1, 9, 9, 1], 'gen', 0, tag=71), 1e-10, 2, is_eigh=False),
+        'matrix_svd.cap': lambda: list(teneva.matrix_svd(space.core('gen', 1, 16, 40, 0, 0, 72)[0], 1e-10, 3)),
+        'matrix_skeleton.cap': lambda: list(teneva.matrix_skeleton(space.core('gen', 1, 40, 16, 0, 0, 73)[0], 1e-10, 3)),
+        'svd.cap': lambda: teneva.svd(ref.dense(space.tt([9, 8, 9], [1, 8, 8, 1], 'gen', 0, tag=74)), 1e-10, 2),
+        'add.grow': lambda: teneva.add(space.tt([3, 4, 3, 4], [1, 2, 2, 2, 1], 'gen', 0, tag=75), space.tt([3, 4, 3, 4], [1, 5, 5, 5, 1], 'gen', 0, tag=76)),
         'orthogonalize': lambda: teneva.orthogonalize(_Y(1), 1),
         'svd': lambda: teneva.svd(_table(), 1e-8),
         'add_mul': lambda: teneva.mul(teneva.add(_Y(1), _Y(2)), 2.0),
@@ -237,7 +244,19 @@ def alphabet():
     return A
 
 
+def _control():
+    """Pure NumPy / SciPy work of the kinds the library does (no teneva code): if this is bit-identical in two fresh interpreters, the
+    environment is reproducible and a library call that is not has a hidden input."""
+    import scipy.linalg
+    A = np.cos(np.arange(40 * 16).reshape(40, 16) * 0.37) + 0.1
+    out = [np.linalg.svd(A, full_matrices=False)[1], np.linalg.eigh(A.T @ A)[0], np.linalg.qr(A)[1], scipy.linalg.lstsq(A, A[:, 0] * 2 + 1)[0],
+           scipy.linalg.rq(A[:8], mode='economic')[0], scipy.linalg.lu(A)[1], np.linalg.solve(A[:16] + 4 * np.eye(16), A[:16, 0]), A @ A.T]
+    return obs(out)
+
+
 def run_call(cid):
+    if cid == '__control__':
+        return 'control', _control()
     kind, fn = alphabet()[cid]
     with warnings.catch_warnings():
         warnings.simplefilter('ignore')
@@ -372,11 +391,146 @@ def check_baseline(c):
                   'identically the results agree (%s), with different global seeds they %s: the result depends on the global generator'
                   % (cid, g0, 'differ' if g0 != g1 else 'agree'), ['call=' + cid.split('(')[0], 'same'])
     else:
-        res.skip('environment not bit-reproducible for ' + cid)
+        # not the global generator.  Is it the environment?  The control (the same kinds of LAPACK / BLAS work without any library code) in
+        # two more fresh interpreters decides: reproducible control => the call has a hidden input (entropy, time, addresses) => violation
+        c1, c2 = _spawn('__control__'), _spawn('__control__')
+        res.tr(2)
+        if c1 == c2 and not c1.startswith('ERROR'):
+            res.fail('fresh.unstable', c, '%s gives different results in fresh interpreters even with the global generator seeded identically, '
+                     'while plain NumPy / SciPy linear algebra is bit-reproducible here: the result depends on something that is neither an '
+                     'argument nor the seed' % cid, ['call=' + cid.split('(')[0], 'same'])
+        else:
+            res.skip('environment not bit-reproducible for ' + cid)
     return res
 
 
-CHECKERS = {'history': check_history, 'object': check_object, 'baseline': check_baseline}
+
+
+# ------------------------------------------------------------------------------------------
+# recall: every exported function (the C09 registry of calls) asked again after its first result was overwritten, and after its
+# arguments were edited in place - a result may depend on the VALUES of the arguments only, not on what an earlier call left behind
+
+def _sig(x):
+    from mc.props.c09 import arrays_in
+    if isinstance(x, np.ndarray) or isinstance(x, (list, tuple, dict)):
+        arrs = arrays_in(x, 'r')
+        rest = repr([v for v in (x if isinstance(x, (list, tuple)) else []) if isinstance(v, (int, float, str, bool, type(None), np.integer, np.floating))])
+        return digest([(p, a.shape, a.dtype.str, np.ascontiguousarray(a).tobytes().hex() if a.size < 4096 else hashlib.sha1(np.ascontiguousarray(a).tobytes()).hexdigest()) for p, a in arrs] + [rest])
+    return digest(repr(x))
+
+
+def _edit(x, depth=0):
+    """Scale every float ndarray reachable from x in place (values stay valid: positive stays positive, ranks and shapes unchanged)."""
+    n = 0
+    if isinstance(x, np.ndarray):
+        if x.dtype.kind == 'f' and x.flags.writeable and x.size:
+            x *= 0.75
+            x[(slice(None),) * (x.ndim // 2) + (0,)] *= 0.5        # and not uniformly: a uniform scaling is invisible to scale-invariant functions
+            n = 1
+    elif isinstance(x, (list, tuple)) and depth < 6:
+        seen = set()
+        for v in x:
+            if id(v) not in seen:
+                seen.add(id(v))
+                n += _edit(v, depth + 1)
+    elif isinstance(x, dict) and depth < 6:
+        for k, v in x.items():
+            if k not in ('info', 'cache'):
+                n += _edit(v, depth + 1)
+    return n
+
+
+def _clone(x, depth=0):
+    if isinstance(x, np.ndarray):
+        return np.array(x, copy=True, order='K')
+    if isinstance(x, list) and depth < 6:
+        return [_clone(v, depth + 1) for v in x]
+    if isinstance(x, tuple) and depth < 6:
+        return tuple(_clone(v, depth + 1) for v in x)
+    if isinstance(x, dict) and depth < 6:
+        return {k: _clone(v, depth + 1) for k, v in x.items()}
+    return x
+
+
+def check_recall(c):
+    import contextlib
+    import io
+    from mc.props import c09
+    res = Res()
+    name, L, rk = c['fn'], c['layout'], c['rank']
+    fn = getattr(teneva, name)
+
+    def fresh(ci):
+        with warnings.catch_warnings():
+            warnings.simplefilter('ignore')
+            return c09.registry()[name](L, rk)[ci]
+
+    def call(a, k):
+        with warnings.catch_warnings(), contextlib.redirect_stdout(io.StringIO()):
+            warnings.simplefilter('ignore')
+            out = fn(*a, **k)
+        if name in ('ANOVA', 'ANOVA_func'):
+            out = [out.cores(2, 0.) if name == 'ANOVA' else out.cores(1e-8)]
+        return out
+
+    def attempt(a, k):
+        try:
+            return _sig(call(a, k)), None
+        except Exception as ex:
+            return None, type(ex).__name__
+
+    with warnings.catch_warnings():
+        warnings.simplefilter('ignore')
+        ncomb = len(c09.registry()[name](L, rk))
+    for ci in range(ncomb):
+        label, a1, k1 = fresh(ci)
+        if label.startswith('INVALID-'):
+            continue
+        res.ev()
+        case = dict(fn=name, layout=L, rank=rk, combo=label)
+        tags = ['fn=' + name]
+        try:
+            o1 = call(a1, k1)
+        except Exception as ex:
+            res.skip('call raised %s (%s %s)' % (type(ex).__name__, name, label))
+            continue
+        s1 = _sig(o1)
+        _, a2, k2 = fresh(ci)
+        o2 = call(a2, k2)
+        if _sig(o2) != s1:
+            res.skip('two calls with equal arguments differ: unseeded random function (%s %s)' % (name, label))
+            continue
+        # (1) overwrite both results and both argument sets, then ask again with equal, new arguments
+        for o in (o1, o2):
+            for _, arr in c09.arrays_in(o, 'r'):
+                if arr.flags.writeable and arr.dtype.kind in 'fiu':
+                    arr[...] = 0
+        _edit(a1), _edit(k1), _edit(a2), _edit(k2)
+        _, a3, k3 = fresh(ci)
+        s3, e3 = attempt(a3, k3)
+        res.check(s3 == s1, 'recall.after_write', case,
+                  lambda: 'after the earlier results / arguments of %s(%s) were overwritten, a call with equal arguments %s' % (
+                      name, label, 'raised ' + e3 if e3 else 'returns something else'), tags + ['recall'])
+        # (2) call, edit the SAME argument objects in place, call again; the same values in new objects give the reference
+        _, a4, k4 = fresh(ci)
+        call(a4, k4)
+        if _edit(a4) + _edit(k4) == 0:
+            continue
+        s4, e4 = attempt(a4, k4)
+        a5, k5 = _clone(a4), _clone(k4)
+        s5, e5 = attempt(a5, k5)
+        if e5 is not None and e4 is not None:
+            res.skip('edited arguments are rejected (%s %s)' % (name, label))
+            continue
+        res.check(s4 == s5 and e4 == e5, 'recall.after_edit', case,
+                  lambda: '%s(%s): after an in-place edit of the argument arrays the call on the same objects %s, on equal new objects %s' % (
+                      name, label, 'raised ' + e4 if e4 else 'gives ' + str(s4)[:12], 'raised ' + e5 if e5 else 'gives ' + str(s5)[:12]),
+                  tags + ['recall'])
+        res.nt((name, label, L, rk))
+    return res
+
+
+CHECKERS = {'history': check_history, 'object': check_object, 'baseline': check_baseline, 'recall': check_recall}
 
 
 def strata(tier, seed):
@@ -391,6 +545,10 @@ def strata(tier, seed):
     yield Stratum('histories<=2', cases, 'history', size=len(ids) + len(ids) * (len(ids) - len(PERTURB)), chunk=1,
                   fresh_worker=True,
                   bounds={'alphabet': len(ids), 'length': 2, 'baselines_not_reproducible': sorted(bad)})
+    from mc.props import c09
+    rc = [dict(fn=n, layout=L, rank=rk) for n in sorted(c09.registry()) for L in (('C', 'F') if tier == 'quick' else c09.LAYOUTS) for rk in ((2,) if tier == 'quick' else (1, 2, 3))]
+    yield Stratum('recall: every exported function after overwriting results / editing arguments in place', rc, 'recall', seq=True, size=len(rc), chunk=2,
+                  bounds={'functions': len(c09.registry()), 'calls per combination': 5})
     obj = [dict(fn=name, gen_seed=gs, globals=[0, 7, 123, None]) for name in _seeded(None) for gs in (5, 6)]
     yield Stratum('generator objects', obj, 'object', size=len(obj), chunk=1, fresh_worker=True, bounds={})
     if tier == 'thorough':
